@@ -666,22 +666,27 @@ class Parser:
                 deepest = max(nested, key=self._spec_nesting)
             self.raise_syntax_error_known_location("f-string: expressions nested too deeply", deepest)
         if debug:
-            # everything between the opening brace and the end of '=' plus the blanks that follow it
+            # everything between the opening brace and the end of '=' plus the blanks that follow it; as in CPython
+            # a comment is not part of the text (its line end is)
             first, last = locs["lineno"], debug.end[0]
             lines = self._tokenizer.get_lines(list(range(first, last + 1)))
+            comments = self._tokenizer._comments
             end = debug.end[1]
-            while True:  # blanks and line ends after the '=' belong to the text too
-                while lines[-1][end : end + 1] in (" ", "\t", "\f", "\r", "\n") and end < len(lines[-1]):
-                    end += 1
+            while True:  # blanks, comments and line ends after the '=' belong to the field too
+                while end < len(lines[-1]) and (lines[-1][end] in " \t\f\r\n" or (lines[-1][end] == "#" and last in comments)):
+                    end = comments[last][1] if lines[-1][end] == "#" else end + 1
                 following = self._tokenizer.get_lines([last + 1]) if end == len(lines[-1]) and lines[-1].endswith("\n") else [""]
                 if not following[0]:
                     break
                 lines.append(following[0])
                 last, end = last + 1, 0
-            lines[-1] = lines[-1][:end]
-            lines[0] = lines[0][locs["col_offset"] + 1 :] if first != last else lines[0][locs["col_offset"] + 1 : end]
+            pieces = []
+            for lnum, line in enumerate(lines, first):
+                lo, hi = (locs["col_offset"] + 1 if lnum == first else 0), (end if lnum == last else len(line))
+                start, stop = comments.get(lnum, (hi, hi))
+                pieces.append(line[lo:hi] if not lo <= start < hi else line[lo:start] + line[min(stop, hi) : hi])
             node._debug_text = ast.Constant(  # type: ignore[attr-defined]
-                value="".join(lines),
+                value="".join(pieces),
                 lineno=first,
                 col_offset=locs["col_offset"] + 1,
                 end_lineno=last,
